@@ -52,3 +52,25 @@ func init() {
 		r.add("DBGI", "debug", "x", "x", nil, nil, "")
 	})
 }
+
+func init() {
+	register("DBGC", "debug crash inventory", func(c *Ctx, r *Report) {
+		w := c.W
+		sites, n, sums := w.nilDerefSites()
+		fmt.Println("== may-return-nil summaries:", len(sums), "calls:", n)
+		for _, s := range sums { fmt.Println("   ", s) }
+		fmt.Println("== nil deref sites:", len(sites))
+		for _, s := range sites { fmt.Println("   ", w.pos(s.Pos), s.Key, s.Use) }
+		ps := w.panicSites()
+		fmt.Println("== panic sites:", len(ps))
+		for _, s := range ps { fmt.Println("   ", w.pos(s.Pos), s.Key) }
+		fmt.Println("== recursion SCCs")
+		for _, s := range w.recursionSCCs() { fmt.Println("   ", s) }
+		fmt.Println("== cond loops")
+		for _, s := range w.condLoops() { fmt.Println("   ", w.pos(s.Pos), s.Key, s.Desc) }
+		ed := w.errDropSites()
+		fmt.Println("== err drops:", len(ed))
+		for _, s := range ed { fmt.Println("   ", w.pos(s.Pos), s.Key) }
+		r.add("DBGC", "debug", "x", "x", nil, nil, "")
+	})
+}
